@@ -261,6 +261,21 @@ func randRec(c *core.Ctx, withQual bool) rec {
 		// a definition is a single line of text without leading/trailing blanks
 		r.Def = strings.NewReplacer("\n", " ", "\t", " ").Replace(r.Def)
 		r.Def = strings.TrimSpace(r.Def)
+		if c.Rng.Intn(6) == 0 {
+			// free text that reads like the other title-line syntax (key=value; ...): it is still the
+			// definition of the record, and names one of its attributes now and then
+			key := "gene"
+			for k := range r.Annot {
+				if c.Rng.Intn(2) == 0 {
+					key = k
+				}
+				break
+			}
+			if strings.ContainsAny(key, " ;=\t\"'{}") || key == "" {
+				key = "gene"
+			}
+			r.Def = strings.TrimSpace(fmt.Sprintf("%s=%s; %s", key, []string{"COI", "3", "1.5", "true"}[c.Rng.Intn(4)], r.Def))
+		}
 	}
 	return r
 }
